@@ -60,6 +60,17 @@ def label_variant_cases(base, reps):
     return out
 
 
+def long_session_cases(base, n):
+    """a long session (70-100 messages from the peer), then the server replays one of the peer's first messages"""
+    out = []
+    for i in range(n):
+        victim = "AB"[i % 2]
+        out.append({"seed": base + i, "long": [70, 80, 100][i % 3], "victim_delegate": True,
+                    "ops": [{"victim": victim, "at": 68 + (i % 5) * 6, "op": "replay-old", "keep": True,
+                             "phase": ["version", "version", "pake", "0", "1"][i % 5], "fresh_id": i % 2 == 0}]})
+    return out
+
+
 def cases(tier, seed, prep=None):
     import random
     out = []
@@ -71,7 +82,9 @@ def cases(tier, seed, prep=None):
             for at in range(0, 10, 2):
                 out.append({"seed": seed * 1000003 + 210000 + at, "ops": [one_op(rng, "AB"[at % 4 // 2], at, op)]})
         out += label_variant_cases(seed * 1000003 + 240000, 1)
+        out += long_session_cases(seed * 1000003 + 260000, 16)
     else:
+        out += long_session_cases(seed * 1000003 + 260000, 400)
         out += label_variant_cases(seed * 1000003 + 240000, 12)
         k = 0
         for op in Tamper.OPS:
@@ -94,7 +107,12 @@ def run_case(spec):
            "versions_a": {"who": "A", "r": rng.randint(0, 99)}, "versions_b": {"who": "B", "r": rng.randint(100, 199)},
            "plan_a": make_plan(rng, "A", rng.randint(1, 4), 60, gates=("any", "key", "verified")),
            "plan_b": make_plan(rng, "B", rng.randint(1, 4), 60, gates=("any", "key", "verified"))}
-    dilated = spec["seed"] % 5 == 3
+    if spec.get("long"):
+        v = spec["ops"][0]["victim"]
+        peer = "b" if v == "A" else "a"
+        cfg["plan_" + peer] = make_plan(rng, peer.upper(), spec["long"], 30, gates=("verified",))
+        cfg["api_" + v.lower()] = "delegate"      # the delegate API shows every event as often as it happens
+    dilated = spec["seed"] % 5 == 3 and not spec.get("long")
     if dilated:
         # both wormholes are also being dilated: dilate-N control records share the mailbox with the numbered phases
         cfg["dilation"] = True
@@ -122,8 +140,10 @@ def run_case(spec):
         # one application gives up early: the remaining (possibly tampered) messages arrive while it is closing
         early = rng.choice([drv.a, drv.b])
         sch.faults.append((rng.randint(20, 200), early.close, "early close " + early.name))
-    sch.run(700, until=settled)
-    sch.drain(40.0, 3000, until=settled)
+    sch.run(700 if not spec.get("long") else 4000, until=settled)
+    sch.drain(40.0, 3000 if not spec.get("long") else 12000, until=settled)
+    if spec.get("long"):
+        sch.drain(5.0, 600)       # let the replayed message be processed
     drv.a.close()
     drv.b.close()
     sch.drain(120.0, 4000, until=lambda: drv.a.closed and drv.b.closed)
@@ -191,7 +211,7 @@ def run_case(spec):
     verdicts = [a.close_results[0] if a.closed else "never" for a in (drv.a, drv.b)]
     return {"violations": viol, "nontrivial": nontrivial,
             "counters": {"tampered_sent": len(adv.tampered), "tampered_processed": processed, "delivered": delivered,
-                         "complete_despite_tamper": int(drv.all_delivered()), "dilated_cases": int(dilated),
+                         "complete_despite_tamper": int(drv.all_delivered()), "dilated_cases": int(dilated), "long_sessions": int(bool(spec.get("long"))),
                          **{"op_" + o["op"]: 1 for o in spec["ops"]},
                          **{"verdict_" + v: 1 for v in verdicts},
                          "notrans_seen": len(MON.notrans), "log_errors_seen": len(MON.errors)},
